@@ -232,11 +232,43 @@ type c16Scenario struct {
 }
 
 func runC16(t *zsim.Tape, cfg *hlib.Config) *hlib.Outcome {
-	if t.Draw(3) == 2 {
+	enumerating := cfg.Int("enum", 0) > 0 && cfg.RunIndex < len(c16EnumPolluters())*c16Victims
+	if t.Draw(3) == 2 && !enumerating {
 		return c16PartB(t, cfg)
 	}
 	return c16PartA(t, cfg)
 }
+
+// c16EnumPolluters lists, deterministically, every single-operation polluter of the catalogue:
+// every mutating method name x every predefined value x 5 argument shapes, a constructor
+// redefinition and a property assignment for every predefined value and the library classes.
+func c16EnumPolluters() []*execSpec {
+	guard := "\n\n拦截异常：\n\t输出“挡住”\n"
+	var out []*execSpec
+	gs := c16Globals()
+	for _, g := range gs {
+		for _, m := range c16Mutators {
+			for ai, args := range []string{"", "：1", "：3、2", "：“x”", "：“k”、5"} {
+				out = append(out, &execSpec{ID: fmt.Sprintf("mutate:%s.%s/%d", g, m, ai), Mode: "script", Main: fmt.Sprintf("令结果 = 以%s（%s%s）\n输出“污染者结束”%s", g, m, args, guard)})
+			}
+		}
+		out = append(out, &execSpec{ID: "ctor:" + g, Mode: "script", Main: fmt.Sprintf("如何新建%s？\n\t输入文\n\t（显示：“构造器被替换”）\n\n输出“污染者结束”%s", g, guard)})
+		out = append(out, &execSpec{ID: "setprop:" + g, Mode: "script", Main: fmt.Sprintf("%s 之 内容 = “改”\n输出“污染者结束”%s", g, guard)})
+	}
+	for _, target := range []string{"物 之 文", "物 之 数", "物 之 表", "物 之 典", "本", "物 之 表 # 2", "物 之 典 # “k”"} {
+		for _, m := range c16Mutators {
+			for ai, args := range []string{"", "：1", "：“x”"} {
+				out = append(out, &execSpec{ID: fmt.Sprintf("libobj:%s.%s/%d", target, m, ai), Mode: "script", Main: fmt.Sprintf("导入《@探针》\n\n令物 = （新建探针箱）\n令本 = 物 之 文\n令结果 = 以%s（%s%s）\n输出“污染者结束”%s", target, m, args, guard)})
+			}
+		}
+	}
+	for _, c := range []string{"探针异常", "探针箱"} {
+		out = append(out, &execSpec{ID: "ctor:" + c, Mode: "script", Main: fmt.Sprintf("导入《@探针》\n\n如何新建%s？\n\t输入文\n\t（显示：“构造器被替换”）\n\n输出“污染者结束”%s", c, guard)})
+	}
+	return out
+}
+
+const c16Victims = 11
 
 func c16PartA(t *zsim.Tape, cfg *hlib.Config) *hlib.Outcome {
 	sc := &c16Scenario{Part: "A:history"}
@@ -248,6 +280,18 @@ func c16PartA(t *zsim.Tape, cfg *hlib.Config) *hlib.Outcome {
 	}
 	sc.Victim = c16Victim(t)
 	sc.Shared = append(sc.Shared, t.Draw(2) == 0)
+	if cfg.Int("enum", 0) > 0 {
+		// the first runs enumerate (single polluter) x (victim kind) completely
+		ps := c16EnumPolluters()
+		if cfg.RunIndex < len(ps)*c16Victims {
+			p := ps[cfg.RunIndex/c16Victims]
+			sc.History, n = []*execSpec{p}, 1
+			sc.Victim = c16Victim(zsim.ReplayTape([]uint32{uint32(cfg.RunIndex % c16Victims)}))
+			sc.Shared = []bool{cfg.RunIndex%2 == 0, (cfg.RunIndex/2)%2 == 0}
+			sc.Part = "A:history(enumerated polluter x victim)"
+			out.Note["enumerated-(polluter,victim)-pairs"]++
+		}
+	}
 	alone, err := playInFreshProcess(&histSpec{Execs: []*execSpec{sc.Victim}, Shared: []bool{true}}, true)
 	if err != nil {
 		out.Sig = "harness:reference-process-failed"
